@@ -149,6 +149,12 @@ def strategy(date, ctx):
             r["rule"] = draw(st.sampled_from(float_rules))
         elif kind in ("rounding_base", "rounding_offset"):
             r["rule"] = draw(st.sampled_from(rounded))
+        if draw(st.booleans()):
+            # history on ONE params object: simulate it, edit it in place (all groups or one), simulate it
+            # again, and compare with a deep copy taken after the edit
+            r["inplace"] = {"scope": draw(st.sampled_from(["all", "all", "one"])),
+                            "group": draw(st.sampled_from(INTERNAL_PARAMS_GROUPS)),
+                            "eps": draw(st.sampled_from([0.05, -0.1, 0.5]))}
         return _Case((pop, r))
 
     return s()
@@ -199,9 +205,70 @@ def apply_reform(date, r):
     raise ValueError(kind)
 
 
+def inplace_history(df, date, r, work, base, nodes, stats=None):
+    """`work` is a private deep copy of the parameters that was already simulated (-> base).  Edit it in
+    place; the result must (a) be that of a deep copy taken after the edit ("parameters by a deep copy
+    changes nothing": nothing may be remembered by the identity of the object) and (b) agree with base
+    on all columns that do not depend on the edited group."""
+    ip = r["inplace"]
+    _, functions = env.policy_env(date)
+    groups = list(INTERNAL_PARAMS_GROUPS) if ip["scope"] == "all" else [ip["group"]]
+    for g in groups:
+        for path in numeric_paths(work[g], (g,)):
+            if len(path) > 1 and path[1] == "rounding":
+                continue
+            v = _get(work, path)
+            if ip["scope"] == "all":
+                # amounts and rates only: integral scalars are mostly ages, counts, years or keys, and a
+                # table that cannot be simulated any more shows nothing
+                if isinstance(v, np.ndarray):
+                    if v.dtype.kind != "f":
+                        continue
+                elif not isinstance(v, (float, np.floating)) or float(v).is_integer():
+                    continue
+            _set(work, path, scaled(v, ip["eps"]))
+    outs = []
+    for p in (work, copy.deepcopy(work)):
+        try:
+            outs.append(env.simulate(df, env=(p, functions), targets=nodes))
+        except Exception as e:  # noqa: BLE001
+            outs.append(e)
+    a, b = outs
+    if isinstance(a, Exception) or isinstance(b, Exception):
+        if type(a) is type(b):
+            if stats is not None:
+                stats["inplace_raises"] = True
+            return []  # the scaled parameters are not simulable (both ways alike)
+        return [core.Failure("inplace-edit:raises", f"{date}: after editing {ip} in place the same params object and its deep copy "
+                             f"behave differently: {type(a).__name__} vs {type(b).__name__}")]
+    key = np.arange(len(df))
+    fails = []
+    diffs = compare.compare_frames(b, a, key_base=key, key_other=key, columns=nodes, exact=True, id_cols_as_partitions=False)
+    if diffs:
+        d = diffs[0]
+        fails.append(core.Failure(f"inplace-edit-vs-deepcopy:{d['column']}",
+                                  f"{date}: a params object that was simulated, then edited in place ({ip}), gives {d['column']} = "
+                                  f"{d.get('other')} but its deep copy gives {d.get('base')} ({d}); {len(diffs)} node(s)"))
+    if ip["scope"] == "one":
+        D = descendants(date, users_of_group(date, ip["group"]))
+        outside = [n for n in nodes if n not in D]
+        diffs = compare.compare_frames(base, a, key_base=key, key_other=key, columns=outside, exact=True,
+                                       id_cols_as_partitions=False)
+        if diffs:
+            d = diffs[0]
+            fails.append(core.Failure(f"inplace-edit:{ip['group']}->{d['column']}",
+                                      f"{date}: editing group {ip['group']} in place changes {d['column']}, which does not depend on it ({d})"))
+    return fails
+
+
 def check(df, date, r, stats=None):
     nodes = env.all_nodes(date)
-    base = env.simulate(df, date, targets=nodes)
+    work = None
+    if r.get("inplace"):
+        work = copy.deepcopy(env.policy_env(date)[0])
+        base = env.simulate(df, env=(work, env.policy_env(date)[1]), targets=nodes)
+    else:
+        base = env.simulate(df, date, targets=nodes)
     params, functions, D = apply_reform(date, r)
     try:
         res = env.simulate(df, env=(params, functions), targets=nodes)
@@ -221,6 +288,10 @@ def check(df, date, r, stats=None):
         tag = r.get("group") or (r.get("path") or [None])[0] or r.get("rule")
         fails.append(core.Failure(f"{r['kind']}:{tag}->{d['column']}",
                                   f"{date}: reform {r} changes {d['column']}, which does not depend on it ({d}); {len(diffs)} node(s)"))
+    if work is not None:
+        fails.extend(inplace_history(df, date, r, work, base, nodes, stats))
+        if stats is not None:
+            stats["inplace"] = r["inplace"]["scope"]
     if stats is not None:
         inside = [n for n in nodes if n in D]
         changed = compare.compare_frames(base, res, key_base=key, key_other=key, columns=inside, exact=True,
@@ -312,6 +383,8 @@ def oracle(case, date, sh, ctx):
     sh.classes[f"reform:{r['kind']}"] += 1
     if stats.get("skipped"):
         sh.classes["reformed-run-raised(skipped)"] += 1
+    if stats.get("inplace"):
+        sh.classes[f"inplace-edit-history:{stats['inplace']}" + (":both-runs-raise" if stats.get("inplace_raises") else "")] += 1
     nontriv = False
     if r["kind"] in ("copy_all", "copy_group", "clone_rule"):
         nontriv = len(pop.df) >= 2
